@@ -103,3 +103,57 @@ def enclosing_stmt(fn, node, kinds):
             return p
         p = par.get(p['id'])
     return None
+
+
+def subst_params(e, sub):
+    """Copy of expression e with references to the parameters in `sub` (decl id -> argument expression node) replaced by
+    the argument; `*p` with an argument `&x` becomes x."""
+    e0 = e
+    e = strip_casts(e)
+    k = e.get('k')
+    if k == 'un' and e['op'] == '*':
+        inner = strip_casts(e['e'])
+        if inner.get('k') == 'ref' and inner.get('d') in sub:
+            a = strip_casts(sub[inner['d']])
+            if a.get('k') == 'un' and a['op'] == '&':
+                return strip_casts(a['e'])
+    if k == 'ref' and e.get('d') in sub:
+        return strip_casts(sub[e['d']])
+    out = dict(e)
+    for f in ('b', 'e', 'l', 'r', 'c', 't', 'i', 'fn'):
+        if f in e and isinstance(e[f], dict):
+            out[f] = subst_params(e[f], sub)
+    if 'args' in e:
+        out['args'] = [subst_params(a, sub) for a in e['args']]
+    return out
+
+
+def assignment_pairs(u, fn, with_helpers=True):
+    """[(lhs_str, rhs_str, node, via)] for every plain assignment of fn (chained assignments expanded, NULL spelled
+    'NULL'), plus - one level deep - the assignments of static helpers it calls, rewritten in terms of the arguments."""
+    out = []
+
+    def add(a, sub, via):
+        if a['op'] != '=':
+            return
+        r0 = strip_casts(a['r'])
+        while r0.get('k') == 'bin' and r0['op'] == '=':
+            r0 = strip_casts(r0['r'])
+        l = strip_casts(a['l'])
+        if sub:
+            l = subst_params(l, sub)
+            r0 = subst_params(r0, sub)
+        rs = 'NULL' if is_null_const(r0) or r0.get('null') else expr_str(r0)
+        out.append((expr_str(l), rs, a, via))
+    for a in assignments(fn):
+        add(a, None, None)
+    if with_helpers:
+        for c in fn.calls():
+            cn = callee_name(c)
+            h = u.functions.get(cn)
+            if h is None or not h.static or h.name == fn.name or len(h.nodes()) > 400:
+                continue
+            sub = {p['d']: arg for p, arg in zip(h.params, c['args'])}
+            for a in assignments(h):
+                add(a, sub, c)
+    return out
